@@ -3,6 +3,7 @@
   the φ-integral of the Bethe–Heitler propagator product (kinematics.P1P2 / anintP1P2 / weight_BH).
 -/
 import Gen.BmkSymR
+import Proofs.Bridge
 import Proofs.HarmTrig
 import Mathlib.Tactic.FieldSimp
 import Mathlib.Tactic.LinearCombination
@@ -33,8 +34,7 @@ theorem P1P2_quadratic (c : Consts) (pt : Pt) (φ : ℝ) :
         + (-(2 * ksqrt (K2 c pt.Q2 pt.xB pt.t pt.y pt.eps2)) / (pt.y * (1 + pt.eps2))) *
             ((1 + pt.t / pt.Q2) - 2 * (-(J c pt.Q2 pt.xB pt.t pt.y pt.eps2) / (pt.y * (1 + pt.eps2)))) * cos φ
         - (-(2 * ksqrt (K2 c pt.Q2 pt.xB pt.t pt.y pt.eps2)) / (pt.y * (1 + pt.eps2))) ^ 2 * cos φ ^ 2 := by
-  simp only [P1P2, kcos]
-  ring
+  bridge_simp [P1P2, kcos]
 
 /-- ∫₀^{2π} P1P2(φ) dφ equals the closed form `anintP1P2` of kinematics.py, for a point whose K2 field is
     the one `prepare` computes and is non-negative (inside the physical region) -/
@@ -59,7 +59,7 @@ noncomputable def atPhi (c : Consts) (pt : Pt) (φ : ℝ) : Pt :=
 
 theorem weight_BH_atPhi (c : Consts) (pt : Pt) (φ : ℝ) :
     weight_BH c (atPhi c pt φ) = (2 * π / pt.intP1P2) * P1P2 c { pt with phi := φ } := by
-  simp only [weight_BH, atPhi, kpi]; ring
+  bridge_simp [weight_BH, atPhi, kpi]
 
 /-- `prepare` applied to the point with azimuth φ is `prepare` applied to the point, moved to φ -/
 theorem prepare_atPhi (c : Consts) (pt : Pt) (φ : ℝ) :
